@@ -136,6 +136,9 @@ func WithDecls(t *rapid.T, s *Spec) {
 			s.NTs[i].Tag = pick()
 		}
 	}
+	if rapid.IntRange(0, 4).Draw(t, "eofalias") == 0 {
+		s.EOFAlias = "EOFTOK"
+	}
 }
 
 // SetLang renders prologue, union and epilogue for the target language from
@@ -147,8 +150,23 @@ func (s *Spec) SetLang(lang string) {
 	}
 	var u strings.Builder
 	u.WriteString("\n")
+	if s.OneLineUnion {
+		// one-line body: "%union { f0 int; f1 int }"
+		u.Reset()
+		u.WriteString(" ")
+		for _, f := range fields {
+			if lang == "ts" {
+				fmt.Fprintf(&u, "%s :number; ", f)
+			} else {
+				fmt.Fprintf(&u, "%s int; ", f)
+			}
+		}
+	}
 	if lang == "ts" {
 		for _, f := range fields {
+			if s.OneLineUnion {
+				break
+			}
 			fmt.Fprintf(&u, "\t%s :number;\n", f)
 		}
 		s.Prologue = "\n\"use strict\";\n"
@@ -157,6 +175,9 @@ func (s *Spec) SetLang(lang string) {
 		return
 	}
 	for _, f := range fields {
+		if s.OneLineUnion {
+			break
+		}
 		fmt.Fprintf(&u, "\t%s int\n", f)
 	}
 	s.Prologue = DefPrologue
